@@ -148,7 +148,15 @@ def replay(wd, b, cn, schedule=None):
     tr["dchips"], tr["dcores"] = cn["dchips"], cn["dcores"]
     tr["dbins"] = [cn["order"].index(bn) + 1 if bn in cn["order"] else 0 for bn in range(1, len(b["blocks"]) + 1)]
     tr["other"] = list(bytearray(cn["other"]))
-    tr["ev"].append(["design", b])
+    # The docstring's "number of attempts" has two readings: n_tries re-tries after the first attempt (as coded:
+    # at most n_tries + 1 attempts, which LoadAppDesign follows) or n_tries attempts in all.  The property only says
+    # the attempts are bounded, so the design's prediction is an obligation only for behaviours on which both readings
+    # agree - those in which the design does not need its (n_tries + 1)-th attempt.  The others are still judged by
+    # every clause of LoadAppTrace (returned => all loaded, raised => exactly the missing cores, bounded attempts).
+    if b["attempts"] <= max(1, b["ntries"]):
+        tr["ev"].append(["design", b])
+    else:
+        tr["label"] = tr.get("label", "") + " (design needs its last attempt: prediction not an obligation)"
     return tr, earlier
 
 
@@ -163,8 +171,11 @@ def run_replay(chk, n=None):
         tr, earlier = replay(wd, b, concretise(b, rng))
         traces.extend(earlier)
         traces.append(tr)
-        c09.note(chk, dict(tr, ev=tr["ev"][:-1]))        # (counted like the calls of job T; without the design event)
+        judged = tr["ev"][-1][0] == "design"
+        c09.note(chk, dict(tr, ev=tr["ev"][:-1] if judged else tr["ev"]))   # (counted like the calls of job T)
         chk.replayed += 1
+        chk.count("tlc-simulated behaviours whose prediction is an obligation (both readings of n_tries agree)" if judged
+                  else "tlc-simulated behaviours judged by LoadAppTrace's clauses only (the design needs attempt n_tries + 1)")
         chk.count("tlc-simulated behaviours in which the design %s" % b["outcome"])
         chk.count("tlc-simulated behaviours: fills with at least one addressed chip missing",
                   sum(1 for f in b["fills"] if {c[0] for c in f["cores"]} & set(f["miss"])))
@@ -173,9 +184,10 @@ def run_replay(chk, n=None):
                                          "count / per-core verification, wait on/off, up to 4 cores already waiting, "
                                          "every subset of chips may miss every fill")
     chk.assumptions.append(
-        "job R (MatchesPrediction) follows LoadAppDesign, which makes at most n_tries + 1 attempts (n_tries re-tries, as "
-        "coded and as LoadAppTrace's AttemptsBounded allows at most); a loader that made n_tries attempts (the other "
-        "reading of the docstring's 'number of attempts') would be accepted by LoadAppTrace but not by PredictedAttempts")
+        "job R: LoadAppDesign makes at most n_tries + 1 attempts (n_tries re-tries, as coded and as LoadAppTrace's "
+        "AttemptsBounded allows at most); the other reading of the docstring (n_tries attempts in all) is equally "
+        "'bounded', so MatchesPrediction is an obligation only for the behaviours in which the design does not need "
+        "attempt n_tries + 1 (the rest are judged by LoadAppTrace's clauses alone)")
     if traces:
         chk.sample(traces[-1]["ev"][-1])
     chk.validate(MODULE, CFG, traces, key_of=c09.key_of, batch=1500, workers=chk.pick(4, 16),
